@@ -26,7 +26,7 @@ import common
 from common import xr, xvec, from_xvec
 
 ID = "C20"
-TARGETS = ["Proofs.C20", "Proofs.C20Rich"]
+TARGETS = ["Proofs.C20", "Proofs.C20Rich", "Proofs.C20Order"]
 GEN_PREFIXES = []
 THEOREMS = {
     "Proofs.C20": ["VerifModel.C20." + t for t in [
@@ -38,6 +38,8 @@ THEOREMS = {
         "C20_expand", "C20_expand_nowhere_else", "C20_expand_times", "C20_window_file", "C20_preserve"]],
     "Proofs.C20Rich": ["VerifModel.C20." + t for t in [
         "C20_preserve_partial", "C20_preserve_full_iff", "C20_preserve_negation", "C20_expand_never_written"]],
+    "Proofs.C20Order": ["VerifModel.C20." + t for t in [
+        "C20_accumulate_ascending", "C20_accumulate_coord_partial", "C20_accumulate_order_negation"]],
 }
 TRUSTED_BASE = [
     "Lean 4.33 kernel; axioms propext, Classical.choice, Quot.sound only",
@@ -53,7 +55,12 @@ TRUSTED_BASE = [
     "the index glue of the Lean driver (flat row-major <-> (t,l,s)) and of this harness, validated by the streams",
 ]
 ASSUMPTIONS = [
-    "lead times ascending in the input (the 'trailing window' of an unsorted NetCDF axis is the file-order window)",
+    "accumulate: the documented window runs along the COORDINATE (Spec/ScriptsOrder.lean accumCoord: 'the leadtimes leading up "
+    "to this time'); the theorems identify it with the script's stored-order window for axes stored ascending "
+    "(C20_accumulate_coord_partial); on NetCDF files whose lead times / times are NOT stored ascending the script follows the "
+    "stored order and violates the statement (C20_accumulate_order_negation, known finding accumulate-axis-order; streams "
+    "acc.unsorted, acc.file with shuffled times: model = code in stored order, judge along the coordinate); window.py on such "
+    "files is correspondence-only (win.unsorted; it writes negative durations there)",
     "input times are non-negative whole seconds, -i hours give whole seconds; window lengths >= 1",
     "ensembles have 1..6 members for ens2prob; quantile levels in [0,1] whose binary64 value lies on the same side "
     "of every grid point i/(M-1) as NumPy's linspace value (checked per op; the model is exact, not rounded)",
@@ -84,13 +91,16 @@ RULE = ("seeded random files: 1-4 times x 1-6 lead times x 1-3 locations, values
         "that lack obs, fcst or both; pres.acc / pres.win / pres.e2p / pres.exp: NetCDF files holding any subset of pit, stored "
         "cdf / x, other score fields, an ensemble, x0 / x1 (every fifth with station id 100000, latitude 60.123, units with "
         "dollar signs, times beyond 2^31 stored as f8), expandverif with -t / -q and without -lt; e2p.nofield: ensemble files "
-        "without obs / fcst / both (with -p: error message); acc.badw: -w 0 and negative; an op is non-trivial if the transformed "
-        "field holds a finite number")
+        "without obs / fcst / both (with -p: error message); acc.badw: -w 0 and negative; acc.unsorted / win.unsorted: NetCDF files whose lead times are "
+        "stored reversed / rotated / shuffled (accumulate every -w and none, -i; window every bin type), judged along the "
+        "lead-time coordinate; an op is non-trivial if the transformed field holds a finite number")
 EXHAUSTIVE = {"quick": False, "thorough": False}
 EXHAUSTIVE_NOTE = "random; for each generated series length every window length 1..len+1 is visited over the stream"
 LEVEL_TEXT = ("Lean theorems over a hand-written model of the script kernels: trailing-window sums and running totals "
               "equal the documented sums with the documented missingness for series and windows of any length "
-              "(induction over lists), lifted to both axes; CDF in [0,1] and monotone, step-function quantiles "
+              "(induction over lists), lifted to both axes; the window along the lead-time / time COORDINATE is that window "
+              "for axes stored ascending (C20_accumulate_coord_partial) and is NOT what the script computes otherwise "
+              "(C20_accumulate_order_negation on the witness 6,0,3); CDF in [0,1] and monotone, step-function quantiles "
               "(file level: slice i of cdf/x belongs to entry i of the -r/-q list in whatever order it was typed) "
               "monotone, inside the member range and equal to the floor rule, PIT = fraction below (for non-missing "
               "observations), valid-time matching places the first stored observation and nothing else, metadata "
@@ -737,6 +747,17 @@ def gen_ops(tier, rng):
         n = L if axis == "leadtime" else T
         w = rng.choice(["-"] + [str(x) for x in range(1, n + 2)])
         yield "acc.file", " ".join(["acc", axis, w, str(rng.randint(0, 1))] + file)
+    # ---- NetCDF files whose LEAD TIMES are not stored ascending (verif itself reads such a file as the same dataset as
+    # the sorted one: Data sorts every axis): accumulate and window on them
+    for i in range(30 if quick else 400):
+        file = _gen_file(rng, fmt=rng.choice(["nc", "ncm"]), L=rng.choice([2, 3, 4, 5]), sorted_times=rng.random() > 0.2)
+        file[4] = xvec(_unsorted(rng, from_xvec(file[4])))
+        L = len(file[4].split(","))
+        if i % 4 == 3:
+            yield "win.unsorted", " ".join(["win", rng.choice(["below=", "below", "above", "above="]), xr(rng.choice([0.0, 0.5, 1.0, 2.0]))] + file)
+        else:
+            w = rng.choice(["-"] + [str(x) for x in range(1, L + 1)])
+            yield "acc.unsorted", " ".join(["acc", "leadtime", w, str(rng.randint(0, 1))] + file)
     # every window length on one series, both -i settings
     for i in range(n_ser):
         n = rng.randint(1, 9)
@@ -940,22 +961,32 @@ def _judge_acc(a, f, r):
                 return ({"script": "accumulate", "kind": "preserve", "what": key}, "absent %s field appears in the output" % key)
             continue
         out = np.array(from_xvec(r[key]), float).reshape(T, L, S)
+        # "the leadtimes leading up to this time": the window runs along the COORDINATE; `order` lists the stored
+        # positions by ascending lead time (time); for a file that stores its axis ascending it is 0..n-1
+        coords = list(f.leads) if axis == "leadtime" else list(f.times)
+        order = sorted(range(n), key=lambda i: coords[i])
+        ascending = order == list(range(n))
         for u in range(T if axis == "leadtime" else L):
             for s in range(S):
                 ser = inp[u, :, s] if axis == "leadtime" else inp[:, u, s]
                 got = out[u, :, s] if axis == "leadtime" else out[:, u, s]
-                x = [_frac(v) for v in ser]
+                xf = [_frac(v) for v in ser]
+                x = [xf[i] for i in order]
                 for t in range(n):
                     want = _doc_accum(x, w, ign, t)
-                    if not _same(got[t], want):
-                        where = "%s series (%s %d, location %d) step %d" % (
-                            key, "time" if axis == "leadtime" else "leadtime", u, s, t)
+                    if not _same(got[order[t]], want):
+                        where = "%s series (%s %d, location %d) %s %s" % (
+                            key, "time" if axis == "leadtime" else "leadtime", u, s, axis, xr(float(coords[order[t]])))
                         sig = {"script": "accumulate", "kind": "value"}
-                        if want is not None and math.isnan(got[t]):
+                        if want is not None and math.isnan(got[order[t]]):
                             sig["kind"] = "spurious-missing"
-                        return (sig, "accumulate -x %s -w %s%s: %s is %s, documented window sum of %s is %s" % (
-                            axis, a[2], " -i" if ign else "", where, xr(got[t]),
-                            [xr(v) if v is not None else "nan" for v in x],
+                        if not ascending and all(_same(got[k], _doc_accum(xf, w, ign, k)) for k in range(n)):
+                            # exactly the window over the STORED order of an axis that is not stored ascending
+                            sig = {"script": "accumulate", "kind": "axis-order", "axis": axis}
+                        return (sig, "accumulate -x %s -w %s%s: %s is %s, documented window sum along %s of %s (%s %s) is %s" % (
+                            axis, a[2], " -i" if ign else "", where, xr(got[order[t]]), axis,
+                            [xr(v) if v is not None else "nan" for v in x], axis,
+                            ",".join(xr(float(coords[i])) for i in order),
                             "missing" if want is None else xr(want)))
     return None
 
